@@ -59,4 +59,23 @@ META = {
         note=BASE_NOTE + "Modelled not verified: crypto/x509 chain building and crypto/tls itself (validated by the handshakes of each run).",
         technique="Lean 4 decision-logic theorems + exhaustive model/implementation correspondence by real TLS handshakes",
     ),
+    "C01": dict(
+        text="Theorem over the fine-grained routing machine for ALL source/target shard counts and ALL fault-free action lists, i.e. every batch shape and every "
+             "interleaving of hand-offs, sends, target acks, ack forwarding and aggregation, with late or silent targets: at every step every ack sent "
+             "upstream covers only tasks their owner target stream has acknowledged (inductive invariant over sender rings, channels, in-flight ack values "
+             "and the seeded per-target map; ~1900 lines of Lean). The pre-fix receiver is refuted by a kernel-checked witness. Model tied to the real code "
+             "by step-for-step differential runs under testing/synctest and a direct monitor of the statement.",
+        design_ref="DESIGN.md §5 C01",
+        note=BASE_NOTE + "Modelled not verified: gRPC/Go runtime (explored through synctest with fake streams), the proxy-id ring is the abstract log justified by C05's refinement theorem.",
+        technique="Lean 4 inductive-invariant proof over a fine-grained transition system (all interleavings) + model/implementation correspondence",
+    ),
+    "C04": dict(
+        text="The full statement (C01 with stream breaks and reconnections at any position) is FALSE of the current tree: two kernel-checked counterexample "
+             "runs (target break loses in-flight tasks; source restart forgets per-target ack state) that the harness reproduces on the real code on every run "
+             "and reports as KNOWN-FINDING; any other violation is a VIOLATION. Proved: the statement for all fault-free runs (partial). The model with fault "
+             "actions is tied to the real code by differential runs with random breaks/reconnects.",
+        design_ref="DESIGN.md §5 C04, §4",
+        note=BASE_NOTE + "Partial: the quantifier over fault positions is covered by refutation + fault-free proof, not by a positive theorem; attribution of violations to known findings is structural (see known_findings.json).",
+        technique="Lean 4 counterexample theorems (decide) + partial invariant proof + model/implementation correspondence with fault injection",
+    ),
 }
